@@ -48,6 +48,12 @@ let field (impl : string list) (name : string) : string option =
 let verdict_s = function VHolds -> "holds" | VNa -> "na" | VFails -> "fails:-"
 
 (* the model's observation after loading: apply the operations one by one (= Coq [step]) and record which failed *)
+(* body_canonical (schema decoder + re-encoder) is the costly part of a case: computed once per distinct body *)
+let canon_tbl : (n list, n list option) Hashtbl.t = Hashtbl.create 8
+let canon_cached (b : n list) : n list option =
+  match Hashtbl.find_opt canon_tbl b with
+  | Some r -> r
+  | None -> let r = body_canonical b in Hashtbl.replace canon_tbl b r; r
 let observe (impl_bb : string) (tx : fixed_tx) (ops : op list) : string * string =
   let flags = Buffer.create 8 in
   let tx = List.fold_left (fun tx o ->
@@ -59,7 +65,7 @@ let observe (impl_bb : string) (tx : fixed_tx) (ops : op list) : string * string
   let e = if Buffer.length flags = 0 then "-" else Buffer.contents flags in
   (* body().to_bytes(): the canonical re-encoding, known to the model on the schema-covered sub-stream only
      (elsewhere the implementation's value is echoed, i.e. not compared) *)
-  let bb = (match body_canonical tx.ft_body with Some c -> hex_of_bytes c | None -> impl_bb) in
+  let bb = (match canon_cached tx.ft_body with Some c -> hex_of_bytes c | None -> impl_bb) in
   (Printf.sprintf "ok b=%s a=%s w=%s t=%s hp=%s e=%s v=%d bb=%s sc=-" (hex_of_bytes tx.ft_body)
      (match tx.ft_aux with Some a -> hex_of_bytes a | None -> "~")
      (hex_of_bytes (encode_wits tx.ft_wits)) (hex_of_bytes (encode_fixed tx)) (hex_of_bytes tx.ft_hash) e
@@ -88,7 +94,7 @@ let run_tx (load : fixed_tx result) (judge_input : n list option) (optoks : stri
   | OutOfFuel -> ("outoffuel", "na")
   | Ok tx ->
     (* a library rejection is tolerated only outside the sub-stream the C01 schema decoder covers *)
-    let cov = tx_covered tx in
+    let cov = canon_cached tx.ft_body <> None && aux_covered tx.ft_aux && wits_covered tx.ft_wits in
     incr n_loaded; if cov then incr n_covered;
     if impl = ["err"] && not cov then ("skip impl-rejects", "na") else
     let ops = List.map parse_op optoks in
@@ -136,7 +142,7 @@ let res_map f = function Ok (x, _) -> Ok (f x) | Err -> Err | Panic -> Panic | O
 let one_item (b : n list) : bool = item_wf b
 
 let run_mode () = run_driver (fun toks impl ->
-  Hashtbl.reset vk_oracle; Hashtbl.reset bw_oracle;
+  Hashtbl.reset vk_oracle; Hashtbl.reset bw_oracle; Hashtbl.reset canon_tbl;
   match toks with
   | "tx" :: hexs :: ops ->
     let bs = bytes_of_hex hexs in
@@ -532,6 +538,7 @@ let gen_aux (nz : noise) (size : int) : string =
   nstr nz' (gen_item (auxiliaryData depth) size)
 
 let body_pool : string list ref = ref []
+let big_sizes = ref false      (* thorough tier: larger structures (the generic reader is quadratic in the input size) *)
 
 let bytes_of_string (s : string) : n list = List.init (String.length s) (fun i -> n_of_int (Char.code s.[i]))
 (* the witnesses already inside a witness-set encoding, as add operations (adding one of them again must not
@@ -582,7 +589,7 @@ let gen_ops ?(wits : string = "") (body : string) (sign_ok : bool) : string list
 
 let gen_tx_parts () : string * string * string * string option * noise =
   let nz = pick_noise () in
-  let size = [| 1; 2; 2; 3; 4; 5 |].(below 6) in
+  let size = (if !big_sizes then [| 1; 2; 3; 4; 5; 6 |] else [| 1; 1; 2; 2; 3; 4 |]).(below 6) in
   let body = gen_body nz size in
   if List.length !body_pool < 40 && chance 30 then body_pool := gen_body quiet 3 :: !body_pool;
   let wits = gen_wits nz size in
@@ -744,6 +751,7 @@ let gen_mode seed tier out =
   ignore (next ());
   let oc = open_out out in
   let scale = if tier = "thorough" then 8 else 1 in
+  big_sizes := (tier = "thorough");
   List.iter (fun l -> output_string oc (l ^ "\n")) (fixed_cases ());
   (* stream 1: valid transactions re-encoded with noise, with operation sequences *)
   for _ = 1 to 250 * scale do
@@ -795,7 +803,7 @@ let gen_mode seed tier out =
   while (!n_pool < 3 * scale || !n_comm < 3 * scale) && !tries < 3000 * scale do
     incr tries;
     all_fields := true;
-    let it = gen_item (transactionBody depth) (3 + below 4) in
+    let it = gen_item (transactionBody depth) (if !big_sizes then 3 + below 4 else 2 + below 2) in
     all_fields := false;
     (match retag_body false false false it with
      | Some (_, pool, comm) when (pool && !n_pool < 3 * scale) || (comm && !n_comm < 3 * scale) ->
